@@ -1,5 +1,5 @@
 //! mode find: the public `step::Collection::find` on a grid of definitions (registered in every order) x step texts.
-use cucumber::step::{Collection, Context};
+use cucumber::step::{Collection, Context, Location};
 use futures::future::LocalBoxFuture;
 
 use super::W;
@@ -49,6 +49,38 @@ pub fn run() {
                     println!("CASE defs={} kw={kw} text={text} result={result}", menu.iter().map(|(k, r)| format!("{k}:{r}")).collect::<Vec<_>>().join("~~"));
                     n += 1;
                 }
+            }
+        }
+    }
+    // the same regex text registered at two different places (e.g. a copy-pasted step definition): both are candidates
+    let locs = [Some(Location { path: "a.rs", line: 10, column: 1 }), Some(Location { path: "b.rs", line: 42, column: 1 }), None];
+    let menu: [(&str, &str); 3] = [("given", r"^dup$"), ("given", r"^dup$"), ("when", r"^dup$")];
+    for order in orders {
+        let mut c = Collection::<W>::new();
+        for &i in &order {
+            let (kw, rx) = menu[i];
+            let re = regex::Regex::new(rx).unwrap();
+            c = match kw {
+                "given" => c.given(locs[i], re, fns[i]),
+                "when" => c.when(locs[i], re, fns[i]),
+                _ => c.then(locs[i], re, fns[i]),
+            };
+        }
+        for text in ["dup", "other"] {
+            for kw in kws {
+                let ty = match kw { "given" => "Given", "when" => "When", _ => "Then" };
+                let feat = super::parse_feature(&format!("Feature: f\n  Scenario: s\n    {ty} {text}\n"));
+                let step = &feat.scenarios[0].steps[0];
+                let result = match c.find(step) {
+                    Ok(None) => "none".to_owned(),
+                    Err(e) => format!("ambiguous:{}", e.possible_matches.iter().map(|(r, _)| r.as_str().to_owned()).collect::<Vec<_>>().join(",")),
+                    Ok(Some((f, _caps, _loc, ctx))) => {
+                        let which = fns.iter().position(|g| std::ptr::fn_addr_eq(*g, *f)).unwrap();
+                        format!("one:{}:{}", menu[which].1, ctx.matches.iter().map(|(n, v)| format!("{}={}", n.clone().unwrap_or("-".into()), v)).collect::<Vec<_>>().join(";"))
+                    }
+                };
+                println!("CASE defs={} kw={kw} text={text} result={result}", menu.iter().map(|(k, r)| format!("{k}:{r}")).collect::<Vec<_>>().join("~~"));
+                n += 1;
             }
         }
     }
